@@ -25,9 +25,12 @@ def run(tier, runner):
     r_ns = round5.need_size(progs + real)
     r_ms = round5.max_size(progs + real)
     r_ms.require(2, 'max_size members')
+    from ..rules import round6
+    r_rp = round6.reserve_post(progs + real)
+    r_rp.require(2, 'reserve members (dynamic and fixed-capacity vectors)')
     return {
-        'results': [r_cs, r_gg, r_geo, r_st, r_cd, r_eo, r_ns, r_ms],
-        'explanation': 'NEED-SIZE: capacity requests derive from element counts, not from the capacity() of another container; MAX-SIZE: max_size() is the size_type maximum (the clamp of SafeNextCapacity) or, for fixed vectors, the capacity - so capacity() <= max_size().  CAP-STABLE: call-graph exclusion - from erase/clear/pop_back/assign/resize/insert/push_back/emplace*/append/copy-assignment no '
+        'results': [r_cs, r_gg, r_geo, r_st, r_cd, r_eo, r_ns, r_ms, r_rp],
+        'explanation': 'RESERVE-POST: every path through reserve(n) hands the request to grow / the base reserve or has compared n with capacity() itself (path-sensitive): after reserve(n), capacity() >= n whatever the inline capacity.  NEED-SIZE: capacity requests derive from element counts, not from the capacity() of another container; MAX-SIZE: max_size() is the size_type maximum (the clamp of SafeNextCapacity) or, for fixed vectors, the capacity - so capacity() <= max_size().  CAP-STABLE: call-graph exclusion - from erase/clear/pop_back/assign/resize/insert/push_back/emplace*/append/copy-assignment no '
                        'path reaches an allocator request, release, shrink or resetToSmall except through grow, so these operations can neither lower '
                        'capacity nor move the buffer when the result fits.  GROW-GUARD: every grow is conditioned on capacity()<needed or size()==capacity() '
                        'and grows to the compared request (reserve included: after reserve(n) capacity()>=n by GEO exact path).  GEO: grow never lowers capacity.  STEAL: moving from / swapping heap-backed vectors hands the buffer over without any element operation; EACH-OTHER: swap2 adjusts capacities only where the buffers cannot simply be exchanged (canSwapDynStorage false), so two heap-backed vectors are never reallocated by a swap.  CHECK-DOM: every growth of the size is dominated by a capacity check of the destination (structural half of size() <= capacity()).',
